@@ -17,9 +17,9 @@ SPEC = dict(
                 "and reports RecursionLimitExceeded on maps without finite descent. Round 2 (IFT patch-map decoding guards): the format-2 "
                 "entry loop never panics for EVERY sparse-bit-set decoder that returns no more data than it got, needs at most #bytes+1 turns whatever "
                 "entry_count says, and a success means exactly entry_count entries each consuming >= 1 byte, ids in u32 (i64 id arithmetic cannot overflow); "
-                "the format-1 feature-map record indexing (i + cumulative, index*field_width*2, first_new + i, entry_map_data[byte_index..]) never panics "
-                "when all indices are u16-representable, because the up-front entry_records_size check uses the same field_width — and full totality of that "
-                "path is REFUTED (u16 overflow panic reachable with a 40-byte table; finding). The models are tied to the code on every run: ~2400 "
+                "the format-1 glyph-map / feature-map intersection (record walk for FeatureSet::All and ::Set, index*field_width*2, first_new.checked_add(i), "
+                "entry_map_data[byte_index..]) never panics for every table and subset definition, because the up-front entry_records_size check uses the same "
+                "field_width as the indexing. The models are tied to the code on every run: ~2400 "
                 "generated op sequences / crafted fpgm+prep programs (incl. two million-instruction runs that pin the +1 slack and the budget "
                 "formula through the reported pc) / composite graphs are executed on the real code and on the model (vm_compute). Everything "
                 "else of the property is TESTED only: an implementation-only totality search runs every public skrifa query, draw (sizes incl. "
